@@ -210,6 +210,40 @@ ShrinkTo_Post(m) ==
     IN IF oP /\ O = {} THEN NoOldRec(Q) ELSE Q
 
 (***************************************************************************)
+(* clone / clone_from (RawTable::clone_with_hasher, clone_from_with_hasher) *)
+(* The result is always an unsplit map holding every element of the source: *)
+(* the main table is cloned bucket for bucket (hashbrown), then the        *)
+(* elements still in the old table are inserted with growing inserts.      *)
+(***************************************************************************)
+CursorBad == oP /\ (cN # Cardinality(cur) \/ cur # KeysOf(O))
+Clone_En(ru) == Ok /\ ru <= (IF oP /\ ~CursorBad THEN Min(cN, HB!Lost(Main)) ELSE 0)
+Clone_Post(ru) ==
+    IF CursorBad THEN Fail("cursor_disagrees")
+    ELSE NoOldRec(WithMain(St, IF oP THEN HB!InsGrowNR(HB!Clone(Main), cN, ru) ELSE HB!Clone(Main), All))
+\* dst.clone_from(self), D = the destination's main table (its old table, if any, is dropped first;
+\* an empty destination is reset to a tombstone-free one before hashbrown's clone_from: fix D6)
+CloneFromDest(D) == IF D.i = 0 THEN HB!ClearNoDrop(D) ELSE D
+CloneFrom_En(D, ru) == Ok /\ ru <= (IF oP /\ ~CursorBad THEN cN ELSE 0)
+CloneFrom_Post(D, ru) ==
+    IF CursorBad THEN Fail("cursor_disagrees")
+    ELSE IF HB!CloneFromUnderflows(CloneFromDest(D), Main) THEN Fail("hb_clone_from_growth_left_underflow")
+    ELSE NoOldRec(WithMain(St, HB!InsGrowNR(HB!CloneFromWithHasher(CloneFromDest(D), Main), IF oP THEN cN ELSE 0, ru), All))
+
+(***************************************************************************)
+(* C07: whole-table calls interrupted by a panicking predicate.            *)
+(*   retain: the elements rejected before the panic were erased (never     *)
+(*           frees the old table); the element handed to the panicking     *)
+(*           call is untouched.                                            *)
+(*   drain_filter: the elements matched before the panic were removed      *)
+(*           through RawTable::remove (frees an emptied old table); the    *)
+(*           DrainFilter's Drop then runs the predicate over the rest.     *)
+(* Both are EraseSet_Post / RemoveSet_Post of the subset processed so far: *)
+(* the interruption adds no behaviour of its own, which is the claim.      *)
+(***************************************************************************)
+F_Retain_Post(S, nt) == EraseSet_Post(S, nt)
+F_DrainFilter_Post(S, nt) == RemoveSet_Post(S, nt)
+
+(***************************************************************************)
 (* Invariants                                                              *)
 (***************************************************************************)
 TypeOK ==
